@@ -19,7 +19,7 @@ from impl_prog import Duck
 from jaxtyping import Float, jaxtyped
 
 LEVEL = "proof"
-THEOREMS = ["C05_source_storage", 
+THEOREMS = ["C05_source_storage", "C05_source_storage_history", 
     "C05_balanced",
     "C05_ctx_exact",
     "C05_call_exact",
